@@ -9,7 +9,15 @@ static size_t g_maxSize;
 
 /* allocator that fills fresh memory with a pattern */
 static int g_fill = 0; static uint64_t g_noise = 88172645463325252ULL; static pthread_mutex_t g_mu = PTHREAD_MUTEX_INITIALIZER;
-static void* f_alloc(void* o, size_t n) { (void)o; uint8_t* p = (uint8_t*)malloc(n ? n : 1); if (!p) return NULL; if (g_fill == 0) memset(p, 0, n); else if (g_fill == 1) memset(p, 0xFF, n); else { pthread_mutex_lock(&g_mu); for (size_t i = 0; i < n; i++) { g_noise ^= g_noise << 13; g_noise ^= g_noise >> 7; g_noise ^= g_noise << 17; p[i] = (uint8_t)g_noise; } pthread_mutex_unlock(&g_mu); } return p; }
+#if defined(__has_feature)
+#  if __has_feature(memory_sanitizer)
+#    define H_MSAN 1      /* MemorySanitizer build: fresh memory is handed out untouched (poisoned), whatever the fill mode */
+#  endif
+#endif
+#ifndef H_MSAN
+#  define H_MSAN 0
+#endif
+static void* f_alloc(void* o, size_t n) { (void)o; uint8_t* p = (uint8_t*)malloc(n ? n : 1); if (!p) return NULL; if (H_MSAN) return p; if (g_fill == 0) memset(p, 0, n); else if (g_fill == 1) memset(p, 0xFF, n); else { pthread_mutex_lock(&g_mu); for (size_t i = 0; i < n; i++) { g_noise ^= g_noise << 13; g_noise ^= g_noise >> 7; g_noise ^= g_noise << 17; p[i] = (uint8_t)g_noise; } pthread_mutex_unlock(&g_mu); } return p; }
 static void f_free(void* o, void* p) { (void)o; free(p); }
 static ZSTD_customMem const FMEM = { f_alloc, f_free, NULL };
 
@@ -115,7 +123,7 @@ static void run_case(long idx)
     if (!W.P.nbWorkers && W.dictMode != 1) {
         ZSTD_CCtx_params* cp = ZSTD_createCCtxParams(); vp_apply_params(cp, &W.P);
         size_t est = W.oneShot ? ZSTD_estimateCCtxSize_usingCCtxParams(cp) : ZSTD_estimateCStreamSize_usingCCtxParams(cp); ZSTD_freeCCtxParams(cp);
-        if (!ZSTD_isError(est)) { est = est * 2 + (8u << 20); uint64_t* ws = (uint64_t*)malloc(est); if (ws) { vrng q = vr_make(V.seed, 7, (uint64_t)idx); vr_fill(&q, ws, est);
+        if (!ZSTD_isError(est)) { est = est * 2 + (8u << 20); uint64_t* ws = (uint64_t*)malloc(est); if (ws) { vrng q = vr_make(V.seed, 7, (uint64_t)idx); if (!H_MSAN) vr_fill(&q, ws, est);
             ZSTD_CCtx* c = ZSTD_initStaticCCtx(ws, est); if (c) { size_t const nv = run_workload(c, &W, &W.S, x, var, cap, cd); if (!(ZSTD_isError(nv) && ZSTD_getErrorCode(nv) == ZSTD_error_memory_allocation)) compare("static", ref, nref, var, nv, &W, desc, "static context in noise-filled caller memory"); } free(ws); } }
     }
     /* axis: buffer placement and alignment (whole arenas move; relative contiguity of src is preserved) */
